@@ -175,6 +175,7 @@ def run(ctx):
                         break
         # third pass: sizes in a shuffled order (state kept between calls must not matter), definition-level check
         order = [int(i) for i in rng.permutation(len(nws))]
+        clear_caches()        # drop the functools memo tables so that the helpers really recompute, in a new order
         from fast_ticc.admm import unique_values as uv2
         for i in order:
             N, W = nws[i]
